@@ -75,6 +75,8 @@ var prims = []prim{
 	{"Once", "using Std::Sync::Once\no := Once()", []string{"call"}},
 	{"Channel0", "o := Channel::[Int](0)", []string{"push", "pop", "close", "length"}},
 	{"Channel1", "o := Channel::[Int](1)", []string{"push", "pop", "close", "length"}},
+	// the same channel reached through its write-only / read-only views as well
+	{"ChannelViews1", "o := Channel::[Int](1)\nw := o.writeonly\nr := o.readonly", []string{"push", "pop", "close", "w.push", "w.close", "r.pop"}},
 }
 
 // blocks reports whether op would block forever in the model state; it updates the state otherwise.
@@ -136,8 +138,8 @@ func step(p string, st *pstate, op string) (blocks bool) {
 				return true // > 0 blocks; < 0 is unspecified
 			}
 		}
-	case "Channel0", "Channel1":
-		switch op {
+	case "Channel0", "Channel1", "ChannelViews1":
+		switch strings.TrimPrefix(strings.TrimPrefix(op, "w."), "r.") {
 		case "push":
 			if !st.closed {
 				if st.length >= st.capac {
@@ -159,17 +161,21 @@ func step(p string, st *pstate, op string) (blocks bool) {
 }
 
 func opCode(p, op string, i int) string {
+	recv := "o"
+	if strings.HasPrefix(op, "w.") || strings.HasPrefix(op, "r.") {
+		recv, op = op[:1], op[2:]
+	}
 	switch {
 	case p == "Once":
 		return fmt.Sprintf("do\n  o.call() -> println(\"once-body\")\n  println(\"%d ok\")\ncatch e\n  println(\"%d err\")\nend\n", i, i)
 	case strings.HasPrefix(p, "Channel") && op == "push":
-		return fmt.Sprintf("do\n  o << %d\n  println(\"%d ok\")\ncatch e\n  println(\"%d err\")\nend\n", i, i, i)
+		return fmt.Sprintf("do\n  %s << %d\n  println(\"%d ok\")\ncatch e\n  println(\"%d err\")\nend\n", recv, i, i, i)
 	case strings.HasPrefix(p, "Channel") && op == "pop":
-		return fmt.Sprintf("do\n  v%d := o.pop\n  println(\"%d ok\")\ncatch e\n  println(\"%d err\")\nend\n", i, i, i)
+		return fmt.Sprintf("do\n  v%d := %s.pop\n  println(\"%d ok\")\ncatch e\n  println(\"%d err\")\nend\n", i, recv, i, i)
 	case strings.HasPrefix(p, "Channel") && op == "length":
 		return fmt.Sprintf("println(\"%d len \" + o.length.to_string)\n", i)
 	}
-	return fmt.Sprintf("do\n  o.%s\n  println(\"%d ok\")\ncatch e\n  println(\"%d err\")\nend\n", op, i, i)
+	return fmt.Sprintf("do\n  %s.%s\n  println(\"%d ok\")\ncatch e\n  println(\"%d err\")\nend\n", recv, op, i, i)
 }
 
 func sequences(p prim, maxLen int) [][]string {
@@ -191,7 +197,7 @@ func sequences(p prim, maxLen int) [][]string {
 		}
 	}
 	st := pstate{}
-	if p.name == "Channel1" {
+	if p.name == "Channel1" || p.name == "ChannelViews1" {
 		st.capac = 1
 	}
 	rec(nil, st)
@@ -286,7 +292,7 @@ func main() {
 	engine.Main(&engine.Spec{
 		Prop:  "C01",
 		Level: "exploration",
-		Rule: "(A) every combination of 6 binding kinds x 9 execution contexts (top level, method, method with defer, do-finally, closure, generator, async, nested async, go thread) x 6 uses of the bound local; (B) every misuse sequence of length <= 3 (thorough 5) over the operations of Mutex, RWMutex, WaitGroup, Once, Channel(0), Channel(1) on one object from one thread that a blocking model says cannot block; (C) one minimal program per crash found so far by any check; (D) every (collection kind of 9: generic/unboxed lists, sets, map; iteration form for-in / explicit iterator; step 1..5 at which the collection is mutated; mutation sequence of up to 15 per kind: clear, pops, removals, pushes, growth, replacement) with the iteration continued after the mutation; " +
+		Rule: "(A) every combination of 6 binding kinds x 9 execution contexts (top level, method, method with defer, do-finally, closure, generator, async, nested async, go thread) x 6 uses of the bound local; (B) every misuse sequence of length <= 3 (thorough 5) over the operations of Mutex, RWMutex, WaitGroup, Once, Channel(0), Channel(1) and Channel(1) together with its write-only and read-only views on one object from one thread that a blocking model says cannot block; (C) one minimal program per crash found so far by any check; (D) every (collection kind of 9: generic/unboxed lists, sets, map; iteration form for-in / explicit iterator; step 1..5 at which the collection is mutated; mutation sequence of up to 15 per kind: clear, pops, removals, pushes, growth, replacement) with the iteration continued after the mutation; " +
 			"oracle: the run ends with a value or an Elk error, never a Go panic/fatal/dead worker (the engine attributes a worker death to the running case); non-trivial = accepted programs (enumerated without repetition). Every other check also reports host crashes of its own program spaces.",
 		Assume: []string{"stack-limit exhaustion is excluded by construction (no unbounded recursion)", "the narrowing/invalidation family is enumerated by C02, std-library calls by C28, multi-threaded use of the primitives by C25"},
 		Setup:  func(c *engine.Ctx) { elkrun.Init() },
